@@ -857,7 +857,8 @@ class FuncAnalysis:
                 parts.append(self.ev(v.value))
         if all(p[0] == 'c' for p in parts):
             return T.C(''.join(str(p[1]) for p in parts))
-        return ('fstr', tuple(parts))
+        # f"a{x}" == "a" + str(x)
+        return T.concat([p if p[0] == 'c' else T.call(T.G('str'), (p,)) for p in parts])
 
     def _e_FormattedValue(self, n):
         return self.ev(n.value)
